@@ -2,10 +2,10 @@
 
 The search is specified by the tail-recursive spec functions
 
-    Fails(d, p)  = False                      if Exists(Join(d, p))
+    Fails(d, p)  = False                      if Exists(PathJoin(d, p))
                  = True                       if d is the root of its anchor
                  = Fails(Parent(d), p)        otherwise
-    Found(d, p)  = Join(d, p)                 if Exists(Join(d, p))
+    Found(d, p)  = PathJoin(d, p)             if Exists(PathJoin(d, p))
                  = Found(Parent(d), p)        otherwise (and d is not the root)
 
 (unfolding axioms with explicit triggers; a tail-recursive equation has a solution on every structure, so the axioms
@@ -53,7 +53,7 @@ def install(eng):
 
     eng.fn("Cwd")(lambda e, st: V(FP, cwd))
     eng.fn("PathOfText")(lambda e, st, s: V(FP, f_of(s.z)))
-    eng.fn("Join")(lambda e, st, a, b: V(FP, f_join(a.z, b.z)))
+    eng.fn("PathJoin")(lambda e, st, a, b: V(FP, f_join(a.z, b.z)))
     eng.fn("Exists")(lambda e, st, a: V(T.BOOL, f_exists(a.z)))
     eng.fn("IsAbsolute")(lambda e, st, a: V(T.BOOL, f_abs(a.z)))
     eng.fn("IsRoot")(lambda e, st, a: V(T.BOOL, is_root(a.z)))
@@ -82,7 +82,7 @@ def install(eng):
     eng.rules[pathlib.Path.cwd] = lambda e, args, kw, st, sink, n: iter([(st, V(FP, cwd))])
 
     eng.contract("iface:FsPath.joinpath", self_type=FP, params={"self": FP, "other": FP}, returns=FP,
-                 returns_expr="Join(self, other)", trusted=True, pure=True)
+                 returns_expr="PathJoin(self, other)", trusted=True, pure=True)
     eng.contract("iface:FsPath.exists", self_type=FP, params={"self": FP}, returns=T.BOOL,
                  returns_expr="Exists(self)", trusted=True, pure=True)
     eng.contract("iface:FsPath.is_absolute", self_type=FP, params={"self": FP}, returns=T.BOOL,
@@ -95,14 +95,14 @@ def install(eng):
             # the object name after the colon, "gwf" when there is none
             "result[1] == (PartTail(path_spec) if len(PartTail(path_spec)) > 0 else 'gwf')",
             # an absolute path is taken as it is (joined to the invoking directory, which pathlib ignores)
-            f"implies(IsAbsolute({P}), result[0] == Join(Cwd(), {P}))",
+            f"implies(IsAbsolute({P}), result[0] == PathJoin(Cwd(), {P}))",
             # a relative one is searched upwards from the invoking directory: the nearest ancestor that has it
             f"implies(not IsAbsolute({P}), result[0] == FindFound(Cwd(), {P}) and not FindFails(Cwd(), {P}))",
             f"implies(not IsAbsolute({P}), Exists(result[0]))",
         ],
         raises={"FileNotFoundError": {"cond": f"not IsAbsolute({P}) and FindFails(Cwd(), {P})", "modifies": []}},
         loops={1: Loop(inv=[
-            "workflow_path == Join(current_dir, path)",
+            "workflow_path == PathJoin(current_dir, path)",
             "FindFails(current_dir, path) == FindFails(Cwd(), path)",
             "implies(not FindFails(Cwd(), path), FindFound(current_dir, path) == FindFound(Cwd(), path))",
         ])},
